@@ -157,6 +157,19 @@ func shapedScenario(g *Gen, which int) Case {
 			t.link(p, "usr/"+n)
 		}
 		steps = []interface{}{cmd("probe"), cmd("mount", "d0"), cmd("probe"), umountAll(), cmd("probe")}
+	case 6, 7:
+		// a parent with children renamed to a legal name no directory entry can carry: the
+		// command must fail without touching the children's definitions
+		for _, l := range []glayer{{name: "p", imports: imports}, {name: "k1", base: "p", imports: imports},
+			{name: "k2", base: "p", imports: imports}, {name: "u", imports: imports}} {
+			genLayerTree(g, t, l, pf, false)
+		}
+		long := strings.Repeat("L", 300)
+		if which == 7 {
+			long = strings.Repeat("é", 150)
+		}
+		steps = []interface{}{cmd("rename", "p", long), cmd("probe"), cmd("add", long, "p", ""), cmd("probe"),
+			cmd("rebase", "k1", long), cmd("probe")}
 	default:
 		// export directory names that differ from the layer's own directory names, explicit
 		// export directives, then rename and remove
@@ -175,7 +188,7 @@ func shapedScenario(g *Gen, which int) Case {
 
 func init() {
 	register("scn-directed", func(g *Gen, tier string, emit func(Case)) {
-		for w := 0; w < 6; w++ {
+		for w := 0; w < 9; w++ {
 			emit(shapedScenario(g, w))
 		}
 		for _, imp := range directedImports {
